@@ -4,7 +4,7 @@
 // Contract: if len in {1,2,4,8} and both addresses are multiples of len, the log is exactly
 // [(R, len, src), (W, len, dst)] -- ONE access of that width on each side.  In every class the accesses
 // are aligned to their width and tile [src, src+len) / [dst, dst+len) exactly once, in ascending order.
-// Loops are fully unwound (<= 8 iterations) => complete over 9 lengths x 8 x 8 alignment classes.
+// Loops are fully unwound (<= 8 iterations) => complete over 9 lengths x 16 x 16 alignment classes (mod 16, so that 'exactly 8-aligned' occurs).
 #![allow(dead_code, unused_imports, static_mut_refs)]
 use super::*;
 use crate::{Bytes, VolatileMemory};
@@ -32,8 +32,8 @@ pub unsafe fn stub_write_volatile<T>(dst: *mut T, val: T) {
     std::ptr::write_unaligned(dst, val)
 }
 
-#[repr(C, align(8))]
-pub struct A8(pub [u8; 24]);
+#[repr(C, align(16))]
+pub struct A8(pub [u8; 40]);
 
 /// the C06 contract over the recorded access sequence of one transfer of `len` bytes src -> dst
 fn check_sequence(src: usize, dst: usize, len: usize) {
@@ -72,15 +72,15 @@ macro_rules! seq_harness {
         #[kani::stub(std::ptr::read_volatile, stub_read_volatile)]
         #[kani::stub(std::ptr::write_volatile, stub_write_volatile)]
         pub fn $name() {
-            let mut guest = A8([0u8; 24]);
-            let mut local = A8([1u8; 24]);
+            let mut guest = A8([0u8; 40]);
+            let mut local = A8([1u8; 40]);
             let go: usize = kani::any();
             let lo: usize = kani::any();
             let $len: usize = kani::any();
-            kani::assume(go < 8 && lo < 8 && $len <= 8);
+            kani::assume(go < 16 && lo < 16 && $len <= 8);
             kani::cover!($len == 8 && go == 0 && lo == 0);
             kani::cover!($len == 2 && go == 6 && lo == 2);
-            kani::cover!($len == 8 && go == 4);
+            kani::cover!($len == 8 && go == 8 && lo == 8);
             let gaddr = guest.0.as_ptr() as usize + go;
             let laddr = local.0.as_ptr() as usize + lo;
             {
@@ -116,10 +116,10 @@ macro_rules! obj_seq_harness {
         #[kani::stub(std::ptr::read_volatile, stub_read_volatile)]
         #[kani::stub(std::ptr::write_volatile, stub_write_volatile)]
         pub fn $name() {
-            let mut guest = A8([0u8; 24]);
+            let mut guest = A8([0u8; 40]);
             let go: usize = kani::any();
             let wr: bool = kani::any();
-            kani::assume(go < 8);
+            kani::assume(go < 16);
             let gaddr = guest.0.as_ptr() as usize + go;
             let s = unsafe { VolatileSlice::new(guest.0.as_mut_ptr().add(go), 16) };
             let n0 = unsafe { NLOG };
